@@ -156,12 +156,34 @@ func cmdCheck(args []string) int {
 			return 2
 		}
 		w.common = cf
+		// the shared file is evaluated in the scope of a designated package (imports via 'import' clauses)
+		for _, pi := range w.pkgs {
+			if pi.path == repoModule+"/pkg/scheduler/api/resource_info" {
+				cp := *pi
+				cp.cf = cf
+				cp.imports = map[string]*types.Package{}
+				for alias, path := range cf.Imports {
+					if tp := w.findTypesPackage(path); tp != nil {
+						cp.imports[alias] = tp
+					}
+				}
+				w.commonPkg = &cp
+			}
+		}
 	}
 	tLoad := time.Since(t0)
+	var structuralPre []string
+	for _, ce := range w.contractErrs {
+		if *prop == "all" || strings.Contains(ce.raw, *prop) {
+			structuralPre = append(structuralPre, "contract file does not parse: "+ce.msg)
+		} else {
+			fmt.Fprintf(os.Stderr, "warning: contract file ignored (parse error): %s\n", ce.msg)
+		}
+	}
 
 	// select units
 	var units []*UnitResult
-	var structural []string
+	structural := append([]string{}, structuralPre...)
 	var pkgPaths []string
 	for p := range w.pkgs {
 		pkgPaths = append(pkgPaths, p)
@@ -184,7 +206,7 @@ func cmdCheck(args []string) int {
 			if *only != "" && !strings.Contains(key, *only) {
 				continue
 			}
-			if strings.HasPrefix(key, "field:") || strings.HasPrefix(key, "type:") || c.Trusted && funcs[key] == nil {
+			if strings.HasPrefix(key, "field:") || strings.HasPrefix(key, "type:") || strings.Contains(key, "/") || c.Trusted && funcs[key] == nil {
 				units = append(units, &UnitResult{Name: pi.short + "." + key, Func: key, Pkg: pi.path, Props: c.Props, Trusted: true})
 				continue
 			}
@@ -263,6 +285,11 @@ func cmdCheck(args []string) int {
 		}
 		if len(u.Callees) > 0 {
 			fe["callee_contracts_used"] = u.Callees
+		}
+		for cc := range w.usedContracts[u.unit] {
+			if cc.Trusted || strings.Contains(cc.Func, "/") || isLibKey(cc.Func) || strings.HasPrefix(cc.Func, "type:") || strings.HasPrefix(cc.Func, "field:") {
+				addAsm("assumed contract (trusted, body not verified) used: " + cc.Func)
+			}
 		}
 		bad := 0
 		for _, o := range u.Obls {
